@@ -400,7 +400,10 @@ class Gen:
             toks, leaves, hows = self.expr(shape, lv)
             if shape == "div L c" and self.t == "d":
                 toks[-1] = r.choice(["c1", "c-1"])
-            self.stmt("asg v%d %s" % (lv, " ".join(toks)), dict(kind="asg", lhs=lv, leaves=leaves, hows=hows, shape=shape, toks=toks))
+            # (not on the object that owns the allocation alone: there the move legitimately replaces the allocation, which the
+            # harness's memory images are keyed on; C07 owns that case)
+            op = "asge" if r.random() < 0.25 and self.views[lv]["how"] != "whole" else "asg"
+            self.stmt("%s v%d %s" % (op, lv, " ".join(toks)), dict(kind=op, lhs=lv, leaves=leaves, hows=hows, shape=shape, toks=toks))
         elif x < 0.33:
             # special operands: spread / outer_product / IndexedArray on the right
             lv = self.pick_target(r.choice([2, 2, 3, 1]))
@@ -591,6 +594,14 @@ class Gen:
             aid = r.choice(fixed)
             lv = self.allocs[aid]["vid"]
             op = r.choice(["fasg", "fasg", "fcadd", "fcmul"])
+            if r.random() < 0.3:
+                # through the Array view of the FixedArray: a target WITHOUT a Storage object, assigned an expression or an
+                # rvalue Array (must be stored in place, never swapped with the temporary)
+                op = r.choice(["asg", "asge", "asge"])
+                shape = r.choice(["L", "add L L", "mul L c", "sub c L"])
+                toks, leaves, hows = self.expr(shape, lv)
+                self.stmt("%s v%d %s" % (op, lv, " ".join(toks)), dict(kind=op, lhs=lv, leaves=leaves, hows=hows, shape=shape, toks=toks))
+                return
             shape = r.choice(FIX_SHAPES if op == "fasg" else EO_SHAPES)
             toks, leaves, hows = self.expr(shape, lv)
             self.stmt("%s f%d %s" % (op, aid, " ".join(toks)), dict(kind=op, lhs=lv, leaves=leaves, hows=hows, shape=shape, toks=toks))
@@ -904,7 +915,7 @@ def py_reduce(kind, fn, dims, el, meta_op, t):
     raise ValueError(kind)
 
 
-STMT_KINDS = ("asg", "cadd", "csub", "cmul", "cdiv", "sca", "whr", "weo", "iasg", "icadd", "icsub", "icmul", "isca", "fasg", "fcadd", "fcmul")
+STMT_KINDS = ("asg", "asge", "cadd", "csub", "cmul", "cdiv", "sca", "whr", "weo", "iasg", "icadd", "icsub", "icmul", "isca", "fasg", "fcadd", "fcmul")
 RED_KINDS = ("red", "redd", "redb", "reddb", "find", "minloc", "maxloc", "dot")
 
 
@@ -966,6 +977,11 @@ def model_text(ops, il):
                 continue
             if k in ("fasg", "fcadd", "fcmul"):
                 op = "%s v%d %s" % (k, fixed_vid[int(w[1][1:])], " ".join(w[2:]))
+            if k == "asge":
+                # `lhs = eval(e)`: an rvalue Array on the right.  eval() has evaluated the whole of e into a temporary before
+                # anything is stored, whatever noalias() wrappers e contains: the meaning is that of `lhs = e` without them
+                # (aliased -> the model's temporary-copy path, not aliased -> the in-place loop, which is the same function)
+                op = "asg " + " ".join(x for x in w[1:] if x != "na")
             mp[i] = len(out); out.append(op)
         else:
             return None, "unknown op %r" % op
@@ -1111,6 +1127,9 @@ def judge_case(ctx, res, label, t):
         m = ml[mp[i]] if mp[i] < len(ml) else "<missing>"
         if k in STMT_KINDS:
             core, _, orc = ans.partition(" o=")
+            if k == "asge":
+                # the alias verdict concerns the expression inside eval(); only the stored result is compared (dump lines)
+                core = core.split(" a=")[0]; m = m.split(" a=")[0]
             if core != m:
                 res["diff"].append((i, "statement answer: impl %r, model %r" % (core, m), "alias-flag"))
             if orc.startswith("bad"):
